@@ -674,15 +674,7 @@ func acRules(c *Ctx) {
 		{"server.(*httpCache).CacheHandler", func(x *Exec, call *ast.CallExpr, s St) bool {
 			// kind == cache.AC on this path (cache.AC == 0); parseRequestURL is
 			// inlined, so the kind it returned is a known constant
-			for k, v := range s.m {
-				if strings.HasPrefix(k, "c:kind@") {
-					return v == "0"
-				}
-				if strings.HasPrefix(k, "p:#0==kind@") && v == "T" {
-					return true
-				}
-			}
-			return false
+			return false // decided from the kind argument's value on the path (below)
 		}},
 	}
 	for _, st := range sites {
@@ -709,19 +701,31 @@ func acRules(c *Ctx) {
 					at, _ := base.Term(x, call.Args[0], s)
 					return base.ForkErr(x, lhs, 1, s, func(okSt St) St {
 						if t, k := base.LTerm(x, lhs[0], okSt); k {
-							return okSt.Set("marshal:"+t, at)
+							okSt = okSt.Set("marshal:"+t, at)
+							if okSt.Get("validated:"+at) == "1" {
+								// the tag follows the bytes out of a helper that returns them
+								okSt = okSt.Set("tag:"+t, "marshalled-validated")
+							}
 						}
 						return okSt
 					}, nil), true
 				case calleeKey(info, call) == "disk.(Cache).Put" && len(lhs) == 1:
 					isAC := st.acCond(x, call, s)
+					if kt, ok := base.Term(x, call.Args[1], s); ok && !isAC {
+						// the kind is a variable: its value on this path (cache.AC == 0)
+						isAC = kt == "#0" || s.Get("c:"+kt) == "0"
+						if v, known := relLookup(s, "#0", "==", kt); known && v {
+							isAC = true
+						}
+					}
 					if isAC {
 						nac++
 						site := fmt.Sprintf("%s%s:Put#%d", c.Cfg, st.key, callOrdinal(x, call))
 						// the reader wraps the marshalled bytes of the validated message
 						data := readerBytes(x, base, call.Args[4], s)
 						ar := s.Get("marshal:" + data)
-						R.Check(data != "" && ar != "" && s.Get("validated:"+ar) == "1", "R11a", site+":validated-marshalled", c.P.Pos(call.Pos()),
+						viaHelper := data != "" && s.Get("tag:"+data) == "marshalled-validated"
+						R.Check(viaHelper || (data != "" && ar != "" && s.Get("validated:"+ar) == "1"), "R11a", site+":validated-marshalled", c.P.Pos(call.Pos()),
 							"the bytes stored under the action key are proto.Marshal(ar) of the message that passed validate.ActionResult",
 							fmt.Sprintf("stored bytes %q, marshalled from %q, validated=%q: the action cache can receive bytes that were not validated", data, ar, s.Get("validated:"+ar)), x.Trace()...)
 						return base.ForkErr(x, lhs, 0, s, func(okSt St) St { return okSt.Set("acstored", "1") }, nil), true
@@ -766,6 +770,7 @@ func acRules(c *Ctx) {
 					"no error return is reachable once the action-cache entry has been stored", "the upload is answered with an error although its ActionResult is already stored under the action key (a rejected upload stores something)", x.Trace()...)
 			},
 		}, "server.parseRequestURL")
+		base.InlineOwnHelpers()
 		x := NewExec(c.P.FlowOf(fi), base)
 		x.Run(newSt())
 		if x.Aborted != "" {
